@@ -108,12 +108,14 @@ def scenario(ctx, p):
             vr = ctx.choose("virtual_rows", [None, -1, 0, 1, 3, 26, 27, 2.5, "3"]) if rows in (1, 2) and cols in (1, 2) else None
             c.update(rows=rows, cols=cols, vr=vr, kind="plate")
             import warnings
+            _earlier(ctx, ns, c, rows, cols, vr, False)
             with warnings.catch_warnings():
                 warnings.simplefilter("ignore")
                 return ns.Labware("L", rows, cols, min_volume=0, max_volume=100, initial_volumes=5, virtual_rows=vr)
         vr = ctx.choose("virtual_rows", [-1, 0, 1, 3, 26, 27, 2.5, "3", None])
         cols = ctx.choose("columns", [-1, 0, 1, 2, 2.5])
         c.update(rows=1, cols=cols, vr=vr, kind="trough")
+        _earlier(ctx, ns, c, vr, cols, None, True)
         return ns.Trough("L", vr, cols, min_volume=0, max_volume=100, initial_volumes=5)
     # names
     case = ctx.choose("case", ["plate-ok", "plate-empty-named", "plate-unknown-well", "trough-ok", "trough-empty-named", "trough-short-names", "trough-short-volumes",
@@ -143,6 +145,27 @@ def scenario(ctx, p):
     if case == "trough-short-volumes":
         return ns.Trough("L", 3, 2, min_volume=0, max_volume=100, initial_volumes=[5])
     return ns.Trough("L", 3, 2, min_volume=0, max_volume=100, initial_volumes=[5, 5, 5])
+
+
+def _earlier(ctx, ns, c, rows, cols, vr, trough):
+    """history: another labware of the same kind was constructed earlier in this process - the transposed geometry, or one whose
+    sizes written one after the other give the same digits (1x12 / 11x2), or the same geometry"""
+    isint = lambda x: isinstance(x, int) and not isinstance(x, bool)
+    if not (isint(rows) and isint(cols) and 1 <= rows <= 26 and cols >= 1 and vr is None):
+        return
+    digits = f"{rows}{cols}"
+    resplit = [(int(digits[:i]), int(digits[i:])) for i in range(1, len(digits)) if digits[i] != "0" and 1 <= int(digits[:i]) <= 26 and (int(digits[:i]), int(digits[i:])) != (rows, cols)]
+    options = [None, "same"] + (["transposed"] if cols <= 26 and cols != rows else []) + (["digits"] if resplit else [])
+    how = ctx.choose("earlier", options)
+    c["earlier"] = how
+    if how is None:
+        return
+    r0, c0 = {"same": (rows, cols), "transposed": (cols, rows), "digits": resplit[0] if resplit else (rows, cols)}[how]
+    c["earlier"] = f"{how} {r0}x{c0}"
+    if trough:
+        ns.Trough("E", r0, c0, min_volume=0, max_volume=100, initial_volumes=1)
+    else:
+        ns.Labware("E", r0, c0, min_volume=0, max_volume=100, initial_volumes=1)
 
 
 def grid_ok(ctx, lab, nrows_ids, realR, C, trough):
@@ -211,7 +234,7 @@ def judge(ctx, p, outcome):
                 valid = None   # bool is an int in Python: not constrained
         else:
             valid = isint(vr) and 1 <= vr <= 26 and isint(cols) and cols >= 1
-        spec = f"rows={rows!r} columns={cols!r} virtual_rows={vr!r}"
+        spec = f"rows={rows!r} columns={cols!r} virtual_rows={vr!r} (constructed earlier: {c.get('earlier')})"
         if kind == "exc":
             ctx.reach("size:rejected")
             if valid:
